@@ -21,7 +21,13 @@
 typedef struct {
 	sqfs_dir_iterator_t base;
 
-	struct dirent *ent;
+	/* all names in the directory, sorted; readdir order is arbitrary */
+	char **names;
+	size_t count;
+	size_t idx;
+	bool have_names;
+
+	const char *ent;
 	struct stat sb;
 	dev_t device;
 	int state;
@@ -31,9 +37,57 @@ typedef struct {
 static void dir_destroy(sqfs_object_t *obj)
 {
 	unix_dir_iterator_t *it = (unix_dir_iterator_t *)obj;
+	size_t i;
 
+	for (i = 0; i < it->count; ++i)
+		free(it->names[i]);
+
+	free(it->names);
 	closedir(it->dir);
 	free(it);
+}
+
+static int compare_names(const void *lhs, const void *rhs)
+{
+	return strcmp(*((char *const *)lhs), *((char *const *)rhs));
+}
+
+static int read_names(unix_dir_iterator_t *it)
+{
+	size_t max = 0;
+
+	for (;;) {
+		struct dirent *ent;
+
+		errno = 0;
+		ent = readdir(it->dir);
+		if (ent == NULL)
+			break;
+
+		if (it->count == max) {
+			size_t new_max = max ? max * 2 : 64;
+			char **new = realloc(it->names,
+					     new_max * sizeof(it->names[0]));
+			if (new == NULL)
+				return SQFS_ERROR_ALLOC;
+
+			it->names = new;
+			max = new_max;
+		}
+
+		it->names[it->count] = strdup(ent->d_name);
+		if (it->names[it->count] == NULL)
+			return SQFS_ERROR_ALLOC;
+
+		it->count += 1;
+	}
+
+	if (errno != 0)
+		return SQFS_ERROR_IO;
+
+	qsort(it->names, it->count, sizeof(it->names[0]), compare_names);
+	it->have_names = true;
+	return 0;
 }
 
 static int dir_read_link(sqfs_dir_iterator_t *base, char **out)
@@ -63,7 +117,7 @@ static int dir_read_link(sqfs_dir_iterator_t *base, char **out)
 	if (str == NULL)
 		return SQFS_ERROR_ALLOC;
 
-	ret = readlinkat(dirfd(it->dir), it->ent->d_name,
+	ret = readlinkat(dirfd(it->dir), it->ent,
 			 str, (size_t)it->sb.st_size);
 	if (ret < 0) {
 		free(str);
@@ -84,26 +138,31 @@ static int dir_next(sqfs_dir_iterator_t *base, sqfs_dir_entry_t **out)
 	if (it->state != 0)
 		return it->state;
 
-	errno = 0;
-	it->ent = readdir(it->dir);
+	if (!it->have_names) {
+		int ret = read_names(it);
 
-	if (it->ent == NULL) {
-		if (errno != 0) {
-			it->state = SQFS_ERROR_IO;
-		} else {
-			it->state = 1;
+		if (ret != 0) {
+			it->ent = NULL;
+			it->state = ret;
+			return it->state;
 		}
+	}
 
+	if (it->idx >= it->count) {
+		it->ent = NULL;
+		it->state = 1;
 		return it->state;
 	}
 
-	if (fstatat(dirfd(it->dir), it->ent->d_name,
+	it->ent = it->names[it->idx++];
+
+	if (fstatat(dirfd(it->dir), it->ent,
 		    &it->sb, AT_SYMLINK_NOFOLLOW)) {
 		it->state = SQFS_ERROR_IO;
 		return it->state;
 	}
 
-	*out = sqfs_dir_entry_create(it->ent->d_name, it->sb.st_mode, 0);
+	*out = sqfs_dir_entry_create(it->ent, it->sb.st_mode, 0);
 	if ((*out) == NULL) {
 		it->state = SQFS_ERROR_ALLOC;
 		return it->state;
@@ -140,11 +199,11 @@ static int dir_open_file_ro(sqfs_dir_iterator_t *base, sqfs_istream_t **out)
 	if (it->state > 0 || it->ent == NULL)
 		return SQFS_ERROR_NO_ENTRY;
 
-	fd = openat(dirfd(it->dir), it->ent->d_name, O_RDONLY);
+	fd = openat(dirfd(it->dir), it->ent, O_RDONLY);
 	if (fd < 0)
 		return SQFS_ERROR_IO;
 
-	ret = sqfs_istream_open_handle(out, it->ent->d_name,
+	ret = sqfs_istream_open_handle(out, it->ent,
 				       fd, SQFS_FILE_OPEN_READ_ONLY);
 	if (ret != 0) {
 		int err = errno;
@@ -177,7 +236,7 @@ static int dir_open_subdir(sqfs_dir_iterator_t *base, sqfs_dir_iterator_t **out)
 	if (it->state > 0 || it->ent == NULL)
 		return SQFS_ERROR_NO_ENTRY;
 
-	fd = openat(dirfd(it->dir), it->ent->d_name, O_RDONLY | O_DIRECTORY);
+	fd = openat(dirfd(it->dir), it->ent, O_RDONLY | O_DIRECTORY);
 	if (fd < 0) {
 		if (errno == ENOTDIR)
 			return SQFS_ERROR_NOT_DIR;
